@@ -12,3 +12,5 @@ mod k_fwd;
 mod k_spec;
 #[cfg(kani)]
 mod k_client;
+#[cfg(kani)]
+mod k_plan;
